@@ -28,7 +28,7 @@ RULE = ('cases = (reader/pipeline mode, option bits, arbitrary bytes); streams: 
         'theory programs with ONE directive the text writer has to refuse (a term / element id defined twice within a step - same or other content -, a theory atom with an unknown element / name term; directly behind the repeated directive, in the middle, last in the step) through aspif->text, lpconvert -t and - control, nothing refused - the reader alone, plus fixed inputs of these shapes: a refused conversion reports one error and leaves nothing allocated; '
         'each at the shipped buffer size and hooked sizes 16/67; '
         ''
-        'every other case (hash of the case) is read by a reader OBJECT that before read or REFUSED one of the aspif / smodels / text primer texts of harness/reuse.h (accepted incremental ones; refused at every stage, the smodels ones with symbol tables that bind common names, _edge and _heuristic predicates; reader modes 0-2); '
+        'every other case (hash of the case) is read by a reader OBJECT that before read or REFUSED one of the aspif / smodels / text primer texts of harness/reuse.h (accepted incremental ones; refused at every stage, the smodels ones with symbol tables that bind common names, _edge and _heuristic predicates; reader modes 0-2), and in the in-process pipelines (modes 3-6) is converted by a WRITER OBJECT (SmodelsOutput / AspifTextOutput / AspifOutput) that was given a primer program before - accepted, refused before anything was delivered, or refused / cut off in the MIDDLE OF A STEP with rules, #show statements with stored strings, every directive kind and theory data pending (tables in harness/h_c04.cpp and harness/reuse.h; by one reader object or a fresh reader per text) - and must produce the status, error report and output bytes of a fresh writer; '
         'non-trivial = the reader delivered at least one directive, reported an error after the header, or the pipeline wrote output; distinct = distinct (mode, opts, bytes)')
 TRUSTED_BASE = ['ASan/UBSan/LSan as the detector of memory errors, UB and leaks in the compiled readers and lpconvert (exploration-strength for the runtime part)',
                 'props/C04.py contract oracle, output sanity checks and the python smodels reference of props/C07.py used for the smodels->aspif output',
@@ -53,7 +53,60 @@ def describe(c):
     names = ['aspif-reader', 'smodels-reader', 'text-reader', 'aspif->smodels', 'aspif->text', 'smodels->aspif', 'smodels->text', 'lpconvert-binary']
     # harness/reuse.h (modes 0-2): every other case reads with a reader object that read / refused a primer text before
     rd = ' reader=' + RU.reader(c, ('aspif', 'smodels', 'text')[mode], bool(opts & 1)) if 0 <= mode <= 2 else ''
+    if 3 <= mode <= 6:
+        rd = ' writer=' + writer_reuse(c, mode, opts)
     return '%s opts=%d buf=%s%s input=%r' % (names[mode] if mode < len(names) else mode, opts, variant_of(c), rd, data[:400])
+
+
+def _writer_tables():
+    """ASPIF_WRITER_PRIMERS / SMODELS_WRITER_PRIMERS read from harness/h_c04.cpp itself (same line shape as harness/reuse.h)"""
+    import ast, os
+    src = open(os.path.join(os.path.dirname(os.path.abspath(__file__)), '..', 'harness', 'h_c04.cpp')).read()
+    macros = {}
+    for m in re.finditer(r'^#define (WR_[A-Z_0-9]+) ("(?:[^"\\\\]|\\\\.)*")\s*$', src, re.M):
+        macros[m.group(1)] = ast.literal_eval('b' + m.group(2))
+    tabs = {}
+    for m in re.finditer(r'static const reuse::Primer ([A-Z_]+)\[\] = \{[^\n]*\n(.*?)\n\};', src, re.S):
+        rows = []
+        for line in m.group(2).split('\n'):
+            line = line.strip()
+            if not line:
+                continue
+            if not (line.startswith('{') and line.endswith('},')):
+                raise ValueError('harness/h_c04.cpp: unexpected primer table line %r' % line)
+            toks = RU._TOK.findall(line[1:-2])
+            k = toks.index(',')
+            rows.append((b''.join(RU._lit(t, macros) for t in toks[:k]).decode(), b''.join(RU._lit(t, macros) for t in toks[k + 1:])))
+        tabs[m.group(1)] = rows
+    for need in ('ASPIF_WRITER_PRIMERS', 'SMODELS_WRITER_PRIMERS'):
+        if not tabs.get(need):
+            raise ValueError('harness/h_c04.cpp: primer table %s not found' % need)
+    return tabs
+
+
+WRITER_TABLES = _writer_tables()
+
+
+def writer_primer(c, mode, opts):
+    """(table, index, tag, text) of the primer the harness gives the writer object of a primed pipeline case (modes 3-6), None if fresh"""
+    if not (3 <= mode <= 6) or not RU.primed(c):
+        return None
+    fmt = 'aspif' if mode <= 4 else 'smodels'
+    if (RU.fnv(c) >> 19) & 1:
+        name = 'ASPIF_WRITER_PRIMERS' if fmt == 'aspif' else 'SMODELS_WRITER_PRIMERS'
+        k = RU.pick(c, len(WRITER_TABLES[name]))
+        return (name, k) + WRITER_TABLES[name][k]
+    return RU.primer(c, fmt, bool(opts & 1))
+
+
+def writer_reuse(c, mode, opts):
+    p = writer_primer(c, mode, opts)
+    if p is None:
+        return 'fresh'
+    name, k, tag, text = p
+    shown = text if len(text) <= 120 else text[:100] + b'...(%d bytes)' % len(text)
+    how = 'converter of its own each' if mode == 3 else ('one reader object' if (RU.fnv(c) >> 18) & 1 else 'fresh reader per text')
+    return 'reused(%s; after primer %s[%d] %s = %r)' % (how, name, k, tag, shown)
 
 
 def contract(calls_):
@@ -151,6 +204,10 @@ def oracle(c, obs):
     status, nerr, line, leak = obs[:4]
     if status in (2, 3) and mode <= 6:
         sig.append('exception-escaped-the-reader')
+    if status == 4 and 3 <= mode <= 6:
+        # harness: the case was converted by a writer object that had been given a primer program before (writer_primer) AND by a fresh
+        # one; status / error report / output bytes differ - the writer used something the input did not contain
+        sig.append('reused-writer-differs-from-fresh-writer')
     if leak:
         sig.append('memory-leak')
     if status == 1 and nerr != 1 and mode <= 6:
@@ -958,7 +1015,7 @@ LEVEL_TEXT = ('Partial by nature. Proved in Coq for EVERY byte string: index saf
               'smodels->text (without -p), the round trip smodels text -> lpconvert -> aspif reader = sm_norm, and that converting a written aspif program equals converting the program. '
               'Partial: aspif->text can fault only inside endStep (cyclic theory term = an error of the real writer); smodels->text under -p only no-fuel. '
               'The models are tied to the code on every run: all 8 modes (3 readers, 4 in-process pipelines, the real lpconvert binary with -p/-f/-t) are compared with the '
-              'model in status, error line and exact output bytes. Crashes, out-of-bounds accesses, UB and leaks of the compiled C++ are exhibited only by running the same '
+              'model in status, error line and exact output bytes; half of the in-process pipeline cases are converted by a writer object that was given another program before (accepted, refused, or refused in the middle of a step with statements pending) and must behave like the fresh writer the model describes. Crashes, out-of-bounds accesses, UB and leaks of the compiled C++ are exhibited only by running the same '
               'inputs through ASan/UBSan/LSan builds of the readers, the pipelines and lpconvert.')
 LEVEL_NOTE = ('Runtime memory behaviour is exploration-strength evidence (sanitizer runs); model-level statements are theorems; the lpconvert output is a theorem-backed model '
               'checked byte for byte against the implementation (NUL-containing inputs and inputs announcing huge id-indexed tables are judged by the oracle only).')
